@@ -336,6 +336,51 @@ def compare_stats_threads(run, tmp):
                         run.fail(dict(i=10**6 + 200 + th, op='stats', threads=th), f'stats differ between 1 and {th} threads: {a} vs {b}',
                                  signature=dict(kind='stats-threads'))
 
+        # stats: the open parameter dataset is shared by the workers - every access to it must be mutually exclusive (GDAL dataset
+        # handles are not thread safe).  A pass-through proxy counts the threads inside an access (and lingers there for a
+        # millisecond, so that an unprotected access by two workers overlaps)
+        for th in (2, 4):
+            with ParamStats(base.param_path) as ps:
+                probe = _ExclusiveProbe(ps._param_im)
+                ps._param_im = probe
+                try:
+                    got = ps.stats(threads=th)
+                finally:
+                    ps._param_im = probe._ds
+            run.evaluations += 1
+            run.hist['stats: shared dataset access probes'] += 1
+            if probe.max_inside > 1:
+                run.fail(dict(i=10**6 + 300 + th, op='stats', threads=th), f'stats(threads={th}): {probe.max_inside} threads were inside '
+                         f'{probe.where} of the shared parameter dataset at the same time ({probe.calls} accesses)', signature=dict(kind='unlocked-access', op='stats'))
+
+
+class _ExclusiveProbe:
+    """pass-through proxy of a dataset that records how many threads are inside one of its I/O methods at once"""
+
+    def __init__(self, ds):
+        import threading
+        self.__dict__.update(_ds=ds, _mx=threading.Lock(), inside=0, max_inside=0, calls=0, where='')
+
+    def __getattr__(self, name):
+        attr = getattr(self._ds, name)
+        if name not in ('read', 'read_masks', 'dataset_mask'):
+            return attr
+
+        def wrapped(*a, **k):
+            import time
+            with self._mx:
+                self.__dict__['inside'] += 1
+                self.__dict__['calls'] += 1
+                if self.inside > self.max_inside:
+                    self.__dict__.update(max_inside=self.inside, where=name)
+            try:
+                time.sleep(0.001)
+                return attr(*a, **k)
+            finally:
+                with self._mx:
+                    self.__dict__['inside'] -= 1
+        return wrapped
+
 
 def free_running_stress(run, tmp):
     """
